@@ -47,6 +47,26 @@ func init() {
 	reg(Check{ID: "C09", Level: "model_checking", Assumptions: orcaAssumptions,
 		Quick: []Job{orcaStep([]string{"c09-"}, nil, stepBounds)}})
 
+	replies := func(name string, params map[string]int64, only []string, bounds string) Job {
+		return Job{Pkg: "./zz_verif/orcah", Func: "ZZReplies", Name: name, Params: params, Only: only, Reach: []string{"loop-returned", "replies-checked"}, Bounds: bounds}
+	}
+	c08only := []string{"c08-"}
+	rb8 := "pipeline of 2 requests as bytes through the real parser, DefaultServer.Loop, orca (9 configurations), real responder; first request: every supported kind (binary: 23 incl. quiet variants, quiet-get batches closed by get/no-op, gete, gat, version, quit; text: 15 incl. 1-3 key gets, unknown command, bad numeric field), second: 2-key get / set / delete; arbitrary valid two-tier start state over 2 keys; values, flags, TTLs, opaques symbolic"
+	reg(Check{ID: "C08", Level: "model_checking", Assumptions: append([]string{
+		"replies are decoded by independent strict decoders (harness/zz_verif/wire/strictdec.go): complete frames only, whole capture consumed",
+		"order of the value frames inside one get is free, the terminator must be last; error class compared (not-found / exists), not the exact code; stats excluded (multi-packet by protocol)",
+		"text: stored flags <= 9 in the quick tier (one rendering shape per VALUE line); gete exists on the single-tier orchestrator only (elsewhere: one unknown-command reply)",
+		"model handlers stand for the backends; the client closes after its last request (EOF)",
+	}, orcaAssumptions...),
+		Quick: []Job{
+			replies("binary-pipeline2", map[string]int64{"pipeline": 2}, c08only, rb8),
+			replies("text-pipeline2", map[string]int64{"pipeline": 2, "text": 1}, c08only, rb8),
+		},
+		Thorough: []Job{
+			replies("binary-3keys-2bytes", map[string]int64{"pipeline": 2, "nk": 3, "dlen": 2, "len0": 3}, c08only, "as quick with 3 keys, stored values 3 bytes, written values 2 bytes"),
+			replies("text-flags-5digits", map[string]int64{"pipeline": 1, "text": 1, "maxflags": 99999, "digits": 3}, c08only, "single text request, stored flags up to 99999 (1-5 digit renderings), 3-digit numeric request fields"),
+		}})
+
 	reg(Check{ID: "C12", Level: "model_checking", Assumptions: append([]string{
 		"lock discipline observed through instrumented lockers injected into the lock-set slot by an overlay file in package orcas (no change to the repository)",
 		"faults: the n-th call on the L1 or L2 model handler returns an I/O error, returns ERROR Busy, or panics; one fault per command",
